@@ -167,6 +167,7 @@ func RunWorker(o WorkerOpts) int {
 		atomic.StoreInt64(&curIdx, idx)
 		t0 := time.Now()
 		atomic.StoreInt64(&started, t0.UnixNano())
+		c.Payload()
 		r := d.Run(c)
 		atomic.StoreInt64(&started, 0)
 		if ms := time.Since(t0).Milliseconds(); ms > done.SlowestMs {
